@@ -27,7 +27,7 @@ def nontrivial(f):
 
 
 def run(sh):
-    n = 300 if sh.tier == 'quick' else 6000
+    n = 300 if sh.tier == 'quick' else 50000
     engine_line.run_profile(sh, 'C16', 'values', n, MONITORS, nontrivial)
 
 
